@@ -9,6 +9,7 @@
 import Props.Tables
 import Proofs.LexerRoundTrip
 import Props.Bytes
+import Proofs.QuotedIdent
 namespace Jmes.Props
 open Jmes Jmes.Lexer
 
@@ -130,5 +131,49 @@ theorem C14_white_space_insignificant {N : Type} [NumOps N] (keys : List (TokTyp
     (h1 : Rendered keys s1) (h2 : Rendered keys s2) (hp : Api.compile Model.cfg s1 = .ok ast) :
     Api.compile Model.cfg s2 = .ok ast :=
   compile_same_tokens h1 h2 hp
+
+/-! ### quoted identifiers, for every Unicode string -/
+
+open Jmes.Lexer Jmes.Json in
+/-- For every well-formed UTF-8 string `s`, the quoted identifier spelled with
+    JSON string escaping (`"` + `json.Marshal` body of `s` + `"`) is read by
+    /repo's lexer as the token (quoted identifier, value `s`) — every plane,
+    control characters, quotes, backslashes, `<`, `>`, `&`, U+2028/9 included. -/
+theorem C14_quoted_identifier_token (s : Bytes) (hv : ValidUtf8 s) :
+    ∃ pos, Lexer.tokenize Model.lexTables (0x22 :: (escape s ++ [0x22])) =
+      .ok [⟨.qident, s, pos⟩, ⟨.eof, [], (0x22 :: (escape s ++ [0x22])).length⟩] := by
+  have hr : Rendered [(.qident, s)] ([] ++ ((0x22 :: (escape s ++ [0x22])) ++ [])) :=
+    Rendered.cons [] .qident s _ [] [] (by simp) (spell_quoted s hv) (Rendered.nil [] (by simp)) trivial
+  simp only [List.nil_append, List.append_nil] at hr
+  obtain ⟨lexed, hl, hk⟩ := tokenize_rendered (tablesAscii_of_bool generated_tables_ascii) hr
+  cases lexed with
+  | nil => simp at hk
+  | cons t ts =>
+    cases ts with
+    | cons u us => simp at hk
+    | nil =>
+      simp only [List.map_cons, List.map_nil, List.cons.injEq, keyOf, Prod.mk.injEq, and_true] at hk
+      obtain ⟨t1, t2, t3⟩ := t
+      simp only at hk
+      obtain ⟨rfl, rfl⟩ := hk
+      exact ⟨t3, hl⟩
+
+open Jmes.Lexer Jmes.Json Jmes.Spec in
+/-- … and selects exactly the key `s`: the expression compiles to `Field s`, whose
+    evaluation on an object is the member named `s` (null when there is none). -/
+theorem C14_quoted_identifier_selects_key {N : Type} [NumOps N] (s : Bytes) (hv : ValidUtf8 s)
+    (kvs : List (Bytes × Val N)) :
+    Api.search Model.cfg (0x22 :: (escape s ++ [0x22])) (.obj kvs) = .ok ((Val.lookup s kvs).getD .null) := by
+  have hr : Rendered [(.qident, s)] ([] ++ ((0x22 :: (escape s ++ [0x22])) ++ [])) :=
+    Rendered.cons [] .qident s _ [] [] (by simp) (spell_quoted s hv) (Rendered.nil [] (by simp)) trivial
+  simp only [List.nil_append, List.append_nil] at hr
+  have hk : Parser.KeysOf (ppE (PE.quoted s : PE N)) [(.qident, s)] := by
+    simp only [ppE]
+    exact Parser.KeysOf.cons rfl (fun _ => rfl) Parser.KeysOf.nil
+  have hcomp : (Api.compile Model.cfg (0x22 :: (escape s ++ [0x22])) : Res (Node N)) = .ok (.field s) := by
+    refine compile_rendered hk hr ?_
+    rw [Parser.parseTokens_congr (sameDecisions_of_tableOK Generated.table Spec.table generated_table_ok spec_table_ok)]
+    exact Parser.round_trip_spec (PE.quoted s) trivial
+  simp only [Api.search, hcomp, Interp.eval]
 
 end Jmes.Props
